@@ -8,9 +8,9 @@ PROP = "C09"
 LEVEL = "fault_enumeration"
 FLAVORS = ["plain"]
 ENGINE = "fault-injection"
-TECHNIQUE = "fault enumeration: every line-boundary (thorough: every byte-boundary) prefix of abidw documents that expat rejects, plus structural corruptions, empty, missing and non-ABI files, each compared against the original in both argument orders; the error bit must be set"
+TECHNIQUE = "fault enumeration: line-boundary and random byte-boundary prefixes of abidw documents that expat rejects, plus structural corruptions, empty, missing and non-ABI files, each compared against the original in both argument orders; the error bit must be set"
 LEVEL_TEXT = ("crash points of an abidw run are modelled by the proper prefixes of its output.  For each document every prefix ending at a "
-              "line boundary (quick; thorough: every byte boundary for documents <= 20 KB) plus random byte boundaries is taken; prefixes "
+              "line boundary (at most 160, thorough 320) plus random byte boundaries (120, thorough 300) is taken; prefixes "
               "that are still complete documents for expat are excluded.  Each unloadable file is given to abidiff as first and as second "
               "argument against the original document and against the original ELF, and to abicompat as application / library.  The exit "
               "status must have the error bit (1).")
@@ -19,12 +19,12 @@ ASSUMPTIONS = [LEVEL_NOTE]
 
 
 def plan(tier):
-    return {"n": 6 if tier == "quick" else 24, "floor": 100 if tier == "quick" else 1200, "procs": 16, "samples": 3}
+    return {"n": 6 if tier == "quick" else 12, "floor": 100 if tier == "quick" else 600, "procs": 16, "samples": 3}
 
 
 def rule(tier):
     return ("case = one abidw document (generated program); faults = all line-boundary prefixes (quick capped at 160 evenly spread + 120 "
-            "random byte boundaries; thorough: every byte boundary for documents <= 20 KB) + 60 corruptions + empty/missing/non-ABI files, "
+            "random byte boundaries) + 60 (thorough 120) corruptions + empty/missing/non-ABI files, "
             "x 2 argument orders x {XML, ELF} counterpart (+ abicompat roles); evaluations = tool runs judged; non-trivial fault = "
             "distinct truncation point or corruption that expat rejects; counted over all documents")
 
@@ -93,13 +93,11 @@ def case(ctx, i):
     faults = []
     # ---- prefixes
     bounds = [k + 1 for k in range(len(data)) if data[k:k + 1] == b"\n"]
-    if ctx.tier == "quick":
-        if len(bounds) > 160:
-            step = len(bounds) / 160.0
-            bounds = sorted({bounds[int(k * step)] for k in range(160)})
-        cut = sorted(set(bounds) | {rng.randrange(1, len(data)) for _ in range(120)})
-    else:
-        cut = list(range(1, len(data))) if len(data) <= 20000 else sorted(set(bounds) | {rng.randrange(1, len(data)) for _ in range(1500)})
+    nb, nr = (160, 120) if ctx.tier == "quick" else (320, 300)
+    if len(bounds) > nb:
+        step = len(bounds) / float(nb)
+        bounds = sorted({bounds[int(k * step)] for k in range(nb)})
+    cut = sorted(set(bounds) | {rng.randrange(1, len(data)) for _ in range(nr)})
     regions = set()
     for c in cut:
         if c >= len(data):
@@ -113,7 +111,7 @@ def case(ctx, i):
         first_nl = data.find(b"\n")
         regions.add("root-start-tag" if c <= first_nl else "symbol-table" if pre.rfind(b"<abi-instr") < 0 else
                     "last-line" if c > data.rstrip(b"\n").rfind(b"\n") else "abi-instr-body")
-    for kind, blob in corruptions(data, rng, 60 if ctx.tier == "quick" else 200):
+    for kind, blob in corruptions(data, rng, 60 if ctx.tier == "quick" else 120):
         ok, _ = abixml.well_formed(blob)
         if not ok:
             faults.append(("corrupt:" + kind, blob))
